@@ -140,6 +140,19 @@ CHECKS["C05"] = dict(
     technique="TLC evaluation of a TLA+ format specification on independently decoded files (trace validation) + TLC model checking of the list maintenance design",
 )
 
+CHECKS["C17"] = dict(
+    category="model_checking",
+    text="Generated files (several signals/types, offsets, gaps, overlaps, omission, annotations/UTC/user data interleaved, structured streams for "
+         "statistics, payloads > 1 MiB) are copied with the real jls_copy. The destination is decoded from its bytes and must be a well-formed, properly "
+         "closed file that decodes to the submitted content (JlsFormat!WellFormed / Decodes), and it is read through the API with the same request list "
+         "as the source - definitions, lengths, windows, statistics, annotations, UTC, user data - all judged by TLC against the same abstract content "
+         "(JlsApi contract), which is what 'reads back the same as from the original' means when both sides are held to one reference.",
+    design_ref="DESIGN.md section 6 C17, section 12",
+    note="Trusted: as C01/C05. Known finding C17-K1 (blocks that exist only as summaries become gaps in the copy) is probed and reported. "
+         "Unclosed originals are exercised by the crash-image corpus of the C03 check.",
+    technique="TLC trace validation of source and copy against one TLA+ contract + TLC evaluation of the format specification on the copy's bytes",
+)
+
 NOT_YET = {}
 
 
